@@ -55,7 +55,8 @@ func (s jsonSet) hashCode(metadata []Metadata) [8]byte {
 		hc := v.hashCode(metadata)
 		sMap[hc] = true
 	}
-	hashes := make(hashCodes, 0, len(sMap))
+	hashes := make(hashCodes, 0, len(sMap)+1)
+	hashes = append(hashes, [8]byte{0x6A, 0x11, 0xF0, 0x3C, 0x9D, 0x25, 0xB7, 0x4E}) // random bytes
 	for hc := range sMap {
 		hashes = append(hashes, hc)
 	}
